@@ -16,6 +16,8 @@ def run(chk):
     ]
     ok = chk.check_theorems()
     rc.run_runner_check(chk, "C03", "proj_C03", OPTS, theorems_ok=ok)
+    # (the deadline clauses of the C02 oracle: a sleep requested once the deadline has passed is a retry that was not permitted)
+    rc.slow_record_part(chk, ("C02",), OPTS)
     if ok:
         import source_tie
         source_tie.runner_ties(chk)
